@@ -2231,3 +2231,39 @@ def m_abs_vec_pop(ex, st, call):
 
 
 _prioritise({'m_abs_vec_pop'})
+
+
+def val_eq2(ex, st, a, b):
+    """structural equality including enums with symbolic discriminants"""
+    a = deref(ex, st, a) if isinstance(a, Ref) else a
+    b = deref(ex, st, b) if isinstance(b, Ref) else b
+    if isinstance(a, Char) and isinstance(b, Char):
+        return a.e == b.e
+    if isinstance(a, Float) and isinstance(b, Float):
+        return z3.fpEQ(a.e, b.e)
+    if isinstance(a, Unit) and isinstance(b, Unit):
+        return z3.BoolVal(True)
+    if isinstance(a, EnumV) and isinstance(b, EnumV):
+        da, db = a.discr_expr(), b.discr_expr()
+        cs = [da == db]
+        for vi in set(a.payload) | set(b.payload):
+            pa, pb = a.payload.get(vi, {}), b.payload.get(vi, {})
+            for fi in set(pa) & set(pb):
+                cs.append(z3.Implies(z3.And(da == vi, db == vi), val_eq2(ex, st, pa[fi], pb[fi])))
+            if set(pa) != set(pb) and (pa or pb):
+                # one side has an unmaterialised payload: only sound if that variant is excluded on that side
+                missing_side = da if not pa else db
+                other = db if not pa else da
+                cs.append(z3.Or(missing_side != vi, other != vi))
+        return z3.And(cs)
+    if isinstance(a, Agg) and isinstance(b, Agg) and set(a.fields) == set(b.fields):
+        return z3.And([val_eq2(ex, st, a.fields[i], b.fields[i]) for i in a.fields] + [z3.BoolVal(True)])
+    return val_eq(a, b)
+
+
+@model(r'^<Option<(char|u8|u16|u32|u64|usize|i32|i64|bool|&str|String)> as PartialEq>::(eq|ne)$|^<\((usize|u32), char\) as PartialEq>::(eq|ne)$')
+def m_option_prim_eq(ex, st, call):
+    a = deref(ex, st, call.args[0])
+    b = deref(ex, st, call.args[1])
+    e = val_eq2(ex, st, a, b)
+    return ex.ret(st, call, Bool(e if call.norm.endswith('::eq') else z3.Not(e)))
